@@ -15,10 +15,11 @@ L5       event decoding: payload/attribute registries pair each message with the
 """
 import ast
 
-from ..finite import Interp
 from ..model import AnalysisError, src, walk_no_nested
-from ..terms import callee_name, calls_in, compare_parts, kwargs_of, single_def
+from ..sval import NONE, const, norm_pc, same, strip_ids
+from ..terms import callee_name
 from ..uapi import Headers, py_layout
+from .. import tq
 from . import common
 
 EXPLANATION = ('static analysis: natural-alignment layout of 17 ctypes mirrors compared leaf by leaf with the layout of the '
@@ -125,8 +126,10 @@ def run(ctx):
     ctx.check(mode == {'TRANSPORT': H.consts['XFRM_MODE_TRANSPORT'], 'TUNNEL': H.consts['XFRM_MODE_TUNNEL']}, 'L2',
               'xfrm.Mode members are XFRM_MODE_TRANSPORT / XFRM_MODE_TUNNEL', key=('L2', 'Mode'), detail={'found': mode})
     xs = ctx.func('xfrm.Xfrm.get_socket')
-    ctx.check(src(xs.node.body[-1]) == 'return cls._get_socket(XFRMGRP_ACQUIRE | XFRMGRP_EXPIRE)', 'L2',
-              'the event socket subscribes to the ACQUIRE and EXPIRE groups', key=('L2', 'groups'), site=ctx.site(xs, xs.node))
+    XS = ctx.sval(xs)
+    ctx.check(tq.match(XS.expr('cls._get_socket(XFRMGRP_ACQUIRE | XFRMGRP_EXPIRE)'), XS.ret()) is not None, 'L2',
+              'the event socket subscribes to the ACQUIRE and EXPIRE groups', key=('L2', 'groups'), site=ctx.site(xs, xs.node),
+              detail={'returned': tq.text(XS.ret())})
     fam = prog.cls('xfrm.Xfrm').lookup_attr('netlink_family')
     ctx.check(fam is not None and src(fam) == 'socket.NETLINK_XFRM', 'L2', 'netlink family is NETLINK_XFRM', key=('L2', 'family'))
 
@@ -137,15 +140,50 @@ def run(ctx):
     check_delete_flush(ctx)
     check_algo(ctx)
     fa = ctx.func('xfrm.XfrmAddress.from_ipaddr')
-    t = src(fa.node)
-    ctx.check("result.addr[0], = unpack_from('>I', data)" in t and "result.addr[1], result.addr[2], result.addr[3] = unpack_from('>III', data, 4)" in t
-              and 'data = ip_addr.packed' in t and 'if ip_addr.version == 6' in t, 'L3',
-              'XfrmAddress.from_ipaddr stores the packed address in network order (IPv4 in the first word)', key=('L3', 'from-ipaddr'),
-              site=ctx.site(fa, fa.node))
+    F = ctx.sval(fa)
+    ip = fa.call_params()[0]
+    res_t = F.ret()
+    words = {}
+    for t, v, pc, _, _ in F.stores:
+        if t[0] == 'index' and t[1] == ('attr', res_t, 'addr') and t[2][0] == 'const':
+            words[t[2][2]] = (v, pc)
+    v6 = norm_pc(((F.expr('%s.version == 6' % ip), True),))
+    ok = tq.is_call(res_t, 'new xfrm.XfrmAddress') and set(words) == {0, 1, 2, 3} \
+        and tq.match(F.expr("unpack_from('>I', %s.packed)[0]" % ip), words[0][0]) is not None and not words[0][1] \
+        and all(tq.match(F.expr("unpack_from('>III', %s.packed, 4)[%d]" % (ip, k - 1)), words[k][0]) is not None and words[k][1] == v6
+                for k in (1, 2, 3))
+    if set(words) != {0, 1, 2, 3} and not ok:
+        ctx.unrecognised('L3', 'XfrmAddress.from_ipaddr does not fill result.addr[0..3] by four plain stores', ctx.site(fa, fa.node))
+    else:
+        ctx.check(ok, 'L3', 'XfrmAddress.from_ipaddr stores the packed address in network order (IPv4 in the first word, the other '
+                  'three words for IPv6)', key=('L3', 'from-ipaddr'), site=ctx.site(fa, fa.node),
+                  detail={'stores': {k: tq.text(v[0]) for k, v in words.items()}})
     ta = ctx.func('xfrm.XfrmAddress.to_ipaddr')
-    t = src(ta.node)
-    ctx.check('data = bytes(self.addr)' in t and 'if family == socket.AF_INET:' in t and 'data = data[:4]' in t and 'return ip_address(data)' in t,
-              'L5', 'XfrmAddress.to_ipaddr reads 4 octets for AF_INET and 16 otherwise', key=('L5', 'to-ipaddr'), site=ctx.site(ta, ta.node))
+    T = ctx.sval(ta)
+    r = T.ret()
+    arg = tq.args(r).get('#0') if tq.is_call(r, 'ipaddress.ip_address') else None
+    vals = None
+    if arg is not None:
+        def leaf(t):
+            if tq.is_call(t, 'builtins.bytes') and tq.args(t).get('#0') == ('attr', ('param', 'self'), 'addr'):
+                return b'0123456789abcdef'
+            raise tq.NoValue()
+        vals = []
+        for famv in ('AF_INET', 'AF_INET6'):
+            def leaf2(t, famv=famv):
+                if t == ('param', ta.call_params()[0]):
+                    return famv
+                if t[0] == 'global' and t[1] in common.AF:
+                    return common.AF[t[1]]
+                if t[0] == 'slice' and t[2] == ('const', 'NoneType', None) and t[3][0] == 'const':
+                    return tq.teval(t[1], leaf2)[:t[3][2]]
+                return leaf(t)
+            try:
+                vals.append(len(tq.teval(arg, leaf2)))
+            except (tq.NoValue, Exception):
+                vals.append(None)
+    ctx.check(vals == [4, 16], 'L5', 'XfrmAddress.to_ipaddr reads 4 octets for AF_INET and 16 otherwise', key=('L5', 'to-ipaddr'),
+              site=ctx.site(ta, ta.node), detail={'returned': tq.text(r)})
 
     # ---------------------------------------------------------------- L4
     check_framing(ctx, sizes)
@@ -154,227 +192,401 @@ def run(ctx):
     check_events(ctx, H)
 
 
-def lft_kwargs(call):
-    return {k.arg: k.value for k in call.keywords}
+M64 = 0xFFFFFFFFFFFFFFFF
+WANT_INF = {'soft_byte_limit': M64, 'hard_byte_limit': M64, 'soft_packed_limit': M64, 'hard_packet_limit': M64,
+            'soft_add_expires_seconds': 0, 'hard_add_expires_seconds': 0, 'soft_use_expires_seconds': 0,
+            'hard_use_expires_seconds': 0}
+
+
+def lft_values(ctx, fi, term, case):
+    """field values of an XfrmLifetimeCfg(...) term for the given parameter values; infinite() is looked through"""
+    inf = ctx.func('xfrm.XfrmLifetimeCfg.infinite')
+
+    def fields(t):
+        if tq.is_call(t, 'xfrm.XfrmLifetimeCfg.infinite'):
+            return fields(ctx.sval(inf).ret())
+        if tq.is_call(t, 'new xfrm.XfrmLifetimeCfg'):
+            out = {}
+            for k, v in tq.args(t).items():
+                vals = common.term_table(ctx, v, [dict(case, **{'xfrm.XFRM_INF': M64})], None)
+                if vals is None:
+                    sv = ctx.sval(fi)
+                    vv = sv.value_of(v)
+                    vals = [vv] if not isinstance(vv, object().__class__) or isinstance(vv, int) else None
+                out[k] = vals[0] if vals else None
+            return out
+        if t[0] == 'cond':
+            c = common.term_table(ctx, t[1], [case], None)
+            if c is None:
+                return None
+            return fields(t[2] if c[0] else t[3])
+        return None
+    return fields(term)
 
 
 def check_lifetimes(ctx):
-    prog = ctx.prog
     inf = ctx.func('xfrm.XfrmLifetimeCfg.infinite')
-    rets = [r for r in walk_no_nested(inf.node) if isinstance(r, ast.Return)]
-    ok = len(rets) == 1 and isinstance(rets[0].value, ast.Call)
-    M64 = 0xFFFFFFFFFFFFFFFF
-    want_inf = {'soft_byte_limit': M64, 'hard_byte_limit': M64, 'soft_packed_limit': M64, 'hard_packet_limit': M64,
-                'soft_add_expires_seconds': 0, 'hard_add_expires_seconds': 0, 'soft_use_expires_seconds': 0,
-                'hard_use_expires_seconds': 0}
-    if ok:
-        kw = {k: prog.const_eval(v, inf.module, inf.cls) for k, v in lft_kwargs(rets[0].value).items()}
-        ok = kw == want_inf
-    ctx.check(ok, 'L3', 'XfrmLifetimeCfg.infinite(): all byte/packet limits XFRM_INF, all time limits 0', key=('L3', 'lft-infinite'),
-              site=ctx.site(inf, inf.node))
+    ctx.check(lft_values(ctx, inf, ctx.sval(inf).ret(), {}) == WANT_INF, 'L3',
+              'XfrmLifetimeCfg.infinite(): all byte/packet limits XFRM_INF, all time limits 0', key=('L3', 'lft-infinite'),
+              site=ctx.site(inf, inf.node), detail={'returned': tq.text(ctx.sval(inf).ret())})
     cs = ctx.func('xfrm.Xfrm.create_sa')
-    us = [c for c in calls_in(cs.node) if callee_name(c) == 'XfrmUserSaInfo']
-    lft = lft_kwargs(us[0]).get('lft') if us else None
-    ok = isinstance(lft, ast.IfExp) and src(lft.test) == 'lifetime < 0' and src(lft.body) == 'XfrmLifetimeCfg.infinite()' \
-        and isinstance(lft.orelse, ast.Call) and callee_name(lft.orelse) == 'XfrmLifetimeCfg'
+    S = ctx.sval(cs)
+    sr = S.calls_to(qual='netlink.NetlinkProtocol.send_recv')
+    us = sr[0].args.get('payload', NONE) if len(sr) == 1 else NONE
+    lft = tq.args(us).get('lft') if tq.is_call(us, 'new xfrm.XfrmUserSaInfo') else None
+    ok = lft is not None
     if ok:
-        kw = lft_kwargs(lft.orelse)
-        for L in (1, 60, 300):
-            vals = {k: Interp(prog, cs, {'lifetime': L}).ev(v) for k, v in kw.items()}
-            ok = ok and vals == dict(want_inf, soft_add_expires_seconds=L, hard_add_expires_seconds=L + 10)
+        for L in (-1, -5):
+            ok = ok and lft_values(ctx, cs, lft, {'lifetime': L}) == WANT_INF
+        for L in (0, 1, 60, 300):
+            ok = ok and lft_values(ctx, cs, lft, {'lifetime': L}) == dict(WANT_INF, soft_add_expires_seconds=L, hard_add_expires_seconds=L + 10)
     ctx.check(ok, 'L3', 'create_sa lifetimes: negative -> infinite; otherwise soft = lifetime and hard = lifetime + 10 seconds after '
-              'creation, no byte/packet/use limits', key=('L3', 'lft-sa'), site=ctx.site(cs, cs.node))
+              'creation, no byte/packet/use limits', key=('L3', 'lft-sa'), site=ctx.site(cs, cs.node),
+              detail={'lft': tq.text(lft, 500) if lft is not None else None})
 
 
 def check_policy_builder(ctx):
-    prog, res = ctx.prog, ctx.res
     fi = ctx.func('xfrm.Xfrm.create_policy')
-    pol = [c for c in calls_in(fi.node) if callee_name(c) == 'XfrmUserPolicyInfo']
-    ctx.check(len(pol) == 1, 'L3', 'create_policy builds one xfrm_userpolicy_info', key=('L3', 'policy'), site=ctx.site(fi, fi.node))
-    if len(pol) != 1:
+    S = ctx.sval(fi)
+    site = ctx.site(fi, fi.node)
+    sr = common.one_send(ctx, 'L3', fi, 'NEWPOLICY', 'create_policy')
+    if sr is None:
         return
-    kw = lft_kwargs(pol[0])
-    sel = kw.get('sel')
-    if isinstance(sel, ast.Call) and callee_name(sel) == 'XfrmSelector':
-        common.selector_orientation(ctx, 'L3', fi, sel, 'create_policy')
-    else:
-        ctx.bad('L3', ('L3', 'create_policy', 'no-selector'), 'create_policy has no selector', ctx.site(fi, fi.node))
-    want = {'dir': 'direction', 'index': 'index', 'action': 'XFRM_POLICY_ALLOW', 'lft': 'XfrmLifetimeCfg.infinite()'}
+    pol = sr.args.get('payload', NONE)
+    ok = tq.is_call(pol, 'new xfrm.XfrmUserPolicyInfo')
+    ctx.check(ok, 'L3', 'create_policy builds one xfrm_userpolicy_info and sends it', key=('L3', 'policy'), site=site)
+    if not ok:
+        return
+    kw = tq.args(pol)
+    common.selector_orientation(ctx, 'L3', fi, kw.get('sel', NONE), 'create_policy')
+    want = {'dir': 'direction', 'index': 'index', 'action': 'XFRM_POLICY_ALLOW'}
     for k, v in want.items():
-        ctx.check(src(kw.get(k)) == v, 'L3', 'create_policy: %s = %s' % (k, v), key=('L3', 'create_policy', k), site=ctx.site(fi, pol[0]),
-                  detail={'found': src(kw.get(k))})
-    ctx.check(set(kw) == set(want) | {'sel'}, 'L3', 'create_policy sets no other policy field', key=('L3', 'create_policy', 'extra'),
-              site=ctx.site(fi, pol[0]), detail={'found': sorted(kw)})
-    tm = [c for c in calls_in(fi.node) if callee_name(c) == 'XfrmUserTmpl']
-    ctx.check(len(tm) == 1, 'L3', 'create_policy builds one template', key=('L3', 'tmpl'), site=ctx.site(fi, fi.node))
-    if len(tm) == 1:
-        tk = lft_kwargs(tm[0])
-        idk = {k: src(v) for k, v in lft_kwargs(tk['id']).items()} if isinstance(tk.get('id'), ast.Call) else {}
-        ctx.check(idk == {'daddr': 'XfrmAddress.from_ipaddr(dst)', 'proto': 'ipsec_proto'}, 'L3',
-                  'template id: tunnel destination and IPsec protocol (SPI 0 = any)', key=('L3', 'tmpl-id'), site=ctx.site(fi, tm[0]),
-                  detail={'found': idk})
-        wt = {'family': ('socket.AF_INET if src.version == 4 else socket.AF_INET6', 'socket.AF_INET6 if src.version == 6 else socket.AF_INET'),
-              'saddr': ('XfrmAddress.from_ipaddr(src)',), 'mode': ('mode',), 'aalgos': ('4294967295',), 'ealgos': ('4294967295',),
-              'calgos': ('4294967295',)}
-        for k, vs in wt.items():
-            ctx.check(src(tk.get(k)) in vs, 'L3', 'template: %s = %s' % (k, vs[0]), key=('L3', 'tmpl', k), site=ctx.site(fi, tm[0]),
-                      detail={'found': src(tk.get(k))})
-    sr = [c for c in calls_in(fi.node) if callee_name(c) == 'send_recv']
-    pv = [src(t) for n in walk_no_nested(fi.node) if isinstance(n, ast.Assign) and n.value is pol[0] for t in n.targets]
-    tv = [src(t) for n in walk_no_nested(fi.node) if isinstance(n, ast.Assign) and tm and n.value is tm[0] for t in n.targets]
-    ctx.check(len(sr) == 1 and pv and tv and [src(a) for a in sr[0].args] == ['XFRM_MSG_NEWPOLICY', 'NLM_F_REQUEST | NLM_F_ACK', pv[0],
-                                                                               '{XFRMA_TMPL: %s}' % tv[0]], 'L3',
-              'create_policy sends XFRM_MSG_NEWPOLICY with REQUEST|ACK, the policy and the template as XFRMA_TMPL', key=('L3', 'policy-send'),
-              site=ctx.site(fi, fi.node))
+        common.expect_term(ctx, 'L3', S, kw.get(k), v, 'create_policy: %s = %s' % (k, v), ('L3', 'create_policy', k), site)
+    ctx.check(kw.get('lft') is not None and lft_values(ctx, fi, kw['lft'], {}) == WANT_INF, 'L3', 'create_policy: the policy never expires',
+              key=('L3', 'create_policy', 'lft'), site=site)
+    ctx.check(set(kw) == set(want) | {'sel', 'lft'}, 'L3', 'create_policy sets no other policy field', key=('L3', 'create_policy', 'extra'),
+              site=site, detail={'found': sorted(kw)})
+    at = sr.args.get('attributes', NONE)
+    ents = [e for e in at[1]] if at[0] == 'dict' else []
+    ok = len(ents) == 1 and len(ents[0]) == 2 and tq.text(ents[0][0]).endswith('XFRMA_TMPL') and tq.is_call(ents[0][1], 'new xfrm.XfrmUserTmpl')
+    ctx.check(ok, 'L3', 'create_policy attaches exactly one template as XFRMA_TMPL', key=('L3', 'tmpl'), site=site,
+              detail={'attributes': tq.text(at, 400)})
+    if ok:
+        tk = tq.args(ents[0][1])
+        common.expect_term(ctx, 'L3', S, tk.get('id'), 'XfrmId(daddr=XfrmAddress.from_ipaddr(dst), proto=ipsec_proto)',
+                           'template id: tunnel destination and IPsec protocol (SPI 0 = any)', ('L3', 'tmpl-id'), site)
+        ctx.check(tk.get('id') is not None and tq.is_call(tk['id']) and set(tq.args(tk['id'])) == {'daddr', 'proto'}, 'L3',
+                  'template id: no SPI is set', key=('L3', 'tmpl-id-extra'), site=site)
+        ctx.check(tk.get('family') is not None and common.family_ok(ctx, tk['family'], 'src'), 'L3',
+                  'template: family follows the tunnel endpoint\'s IP version', key=('L3', 'tmpl', 'family'), site=site)
+        for k, v in (('saddr', 'XfrmAddress.from_ipaddr(src)'), ('mode', 'mode'), ('aalgos', '4294967295'), ('ealgos', '4294967295'),
+                     ('calgos', '4294967295')):
+            common.expect_term(ctx, 'L3', S, tk.get(k), v, 'template: %s = %s' % (k, v), ('L3', 'tmpl', k), site)
 
 
 def check_delete_flush(ctx):
     fi = ctx.func('xfrm.Xfrm.delete_sa')
+    S = ctx.sval(fi)
     ps = fi.call_params()
-    c = [x for x in calls_in(fi.node) if callee_name(x) == 'XfrmUserSaId']
-    ok = len(c) == 1
+    sr = common.one_send(ctx, 'L3', fi, 'DELSA', 'delete_sa')
+    pl = sr.args.get('payload', NONE) if sr is not None else NONE
+    ok = tq.is_call(pl, 'new xfrm.XfrmUserSaId')
     if ok:
-        kw = {k: src(v) for k, v in lft_kwargs(c[0]).items()}
-        ok = kw == {'daddr': 'XfrmAddress.from_ipaddr(%s)' % ps[0], 'proto': ps[1], 'spi': 'create_byte_array(%s)' % ps[2],
-                    'family': 'socket.AF_INET if %s.version == 4 else socket.AF_INET6' % ps[0]}
+        kw = tq.args(pl)
+        ok = set(kw) == {'daddr', 'proto', 'spi', 'family'} \
+            and tq.match(S.expr('XfrmAddress.from_ipaddr(%s)' % ps[0]), kw['daddr']) is not None and kw['proto'] == ('param', ps[1]) \
+            and tq.match(S.expr('create_byte_array(%s)' % ps[2]), kw['spi']) is not None and common.family_ok(ctx, kw['family'], ps[0])
     ctx.check(ok, 'L3', 'delete_sa identifies the SA by (destination address, its family, protocol, SPI)', key=('L3', 'delete-id'),
-              site=ctx.site(fi, fi.node))
-    sr = [x for x in calls_in(fi.node) if callee_name(x) == 'send_recv']
-    ctx.check(len(sr) == 1 and [src(a) for a in sr[0].args[:2]] == ['XFRM_MSG_DELSA', 'NLM_F_REQUEST | NLM_F_ACK'], 'L3',
-              'delete_sa sends XFRM_MSG_DELSA with REQUEST|ACK', key=('L3', 'delete-send'), site=ctx.site(fi, fi.node))
-    for name, msg in (('flush_policies', 'XFRM_MSG_FLUSHPOLICY'), ('flush_sas', 'XFRM_MSG_FLUSHSA')):
+              site=ctx.site(fi, fi.node), detail={'payload': tq.text(pl, 400)})
+    for name, msg in (('flush_policies', 'FLUSHPOLICY'), ('flush_sas', 'FLUSHSA')):
         f = ctx.func('xfrm.Xfrm.' + name)
-        sr = [x for x in calls_in(f.node) if callee_name(x) == 'send_recv']
-        fl = [x for x in calls_in(f.node) if callee_name(x) == 'XfrmUserSaFlush']
-        ok = len(sr) == 1 and len(fl) == 1 and [src(a) for a in sr[0].args[:2]] == [msg, 'NLM_F_REQUEST | NLM_F_ACK'] \
-            and {k: src(v) for k, v in lft_kwargs(fl[0]).items()} == {'proto': '0'}
-        ctx.check(ok, 'L3', '%s sends %s for every protocol (proto = 0) with REQUEST|ACK' % (name, msg), key=('L3', name),
-                  site=ctx.site(f, f.node))
+        sr = common.one_send(ctx, 'L3', f, msg, name)
+        pl = sr.args.get('payload', NONE) if sr is not None else NONE
+        ok = tq.is_call(pl, 'new xfrm.XfrmUserSaFlush') and tq.args(pl) in ({'proto': const(0)}, {})
+        ctx.check(ok, 'L3', '%s flushes every protocol (proto = 0)' % name, key=('L3', name), site=ctx.site(f, f.node),
+                  detail={'payload': tq.text(pl)})
 
 
 def check_algo(ctx):
     fi = ctx.func('xfrm.XfrmAlgo.build')
-    c = [x for x in calls_in(fi.node) if callee_name(x) == 'XfrmAlgo']
-    ok = len(c) == 1
+    S = ctx.sval(fi)
+    ps = fi.call_params()
+    r = S.ret()
+    ok = tq.is_call(r, 'new xfrm.XfrmAlgo')
     if ok:
-        kw = {k: src(v) for k, v in lft_kwargs(c[0]).items()}
-        ps = fi.call_params()
-        ok = kw == {'alg_name': 'create_byte_array(%s, 64)' % ps[0], 'alg_key_len': 'len(%s) * 8' % ps[1],
-                    'key': 'create_byte_array(%s, 64)' % ps[1]}
+        kw = tq.args(r)
+        ok = set(kw) == {'alg_name', 'alg_key_len', 'key'} \
+            and tq.match(S.expr('create_byte_array(%s, 64)' % ps[0]), kw['alg_name']) is not None \
+            and tq.match(S.expr('create_byte_array(%s, 64)' % ps[1]), kw['key']) is not None \
+            and common.term_table(ctx, kw['alg_key_len'], [{ps[1]: b'k' * 16}, {ps[1]: b'k' * 20}], None) == [128, 160]
     ctx.check(ok, 'L3', 'XfrmAlgo.build: zero-padded 64-octet name, key length in bits, key bytes at the start of the key array',
-              key=('L3', 'algo-build'), site=ctx.site(fi, fi.node))
+              key=('L3', 'algo-build'), site=ctx.site(fi, fi.node), detail={'returned': tq.text(r, 400)})
     cb = ctx.prog.functions.get('xfrm.create_byte_array')
     ctx.require(cb is not None, 'anchor vanished: create_byte_array')
-    t = src(cb.node)
-    ctx.check('return (c_ubyte * size)(*data)' in t and 'size = len(data)' in t, 'L3',
-              'create_byte_array copies the bytes into an array of the given size (zero filled)', key=('L3', 'byte-array'),
-              site=ctx.site(cb, cb.node))
+    B = ctx.sval(cb)
+    r = B.ret()
+    cps = cb.call_params()
+    ok = r[0] == 'call' and isinstance(r[1], tuple) and r[1][0] == 'dyn' and tq.args(r).get('#0') == ('star', ('param', cps[0]))
+    if ok:
+        ty = r[1][1]
+        ok = ty[0] == 'bin' and ty[1] == '*' and ('global', 'ctypes.c_ubyte') in ty[2:]
+        n = [x for x in ty[2:] if x != ('global', 'ctypes.c_ubyte')]
+        ok = ok and len(n) == 1 and common.term_table(ctx, n[0], [{cps[0]: b'abc', cps[1]: None}, {cps[0]: b'abc', cps[1]: 64}], None) == [3, 64]
+    ctx.check(ok, 'L3', 'create_byte_array copies the bytes into an array of the given size (zero filled; the data length by default)',
+              key=('L3', 'byte-array'), site=ctx.site(cb, cb.node), detail={'returned': tq.text(r)})
 
 
 def check_framing(ctx, sizes):
-    prog, res = ctx.prog, ctx.res
     sr = ctx.func('netlink.NetlinkProtocol.send_recv')
-    hd = [c for c in calls_in(sr.node) if callee_name(c) == 'NetlinkHeader']
-    ok = len(hd) == 1
+    S = ctx.sval(sr)
+    ps = sr.call_params()
+    site = ctx.site(sr, sr.node)
+    snd = S.calls_to(callee='method.send')
+    wire = tq.args(snd[0].term).get('#0') if len(snd) == 1 else None
+    parts = list(wire[1]) if wire is not None and wire[0] == 'add' else []
+    hdr = tq.args(parts[0]).get('#0') if parts and tq.is_call(parts[0], 'builtins.bytes') else None
+    ok = hdr is not None and tq.is_call(hdr, 'new netlink.NetlinkHeader')
+    body = tuple(parts[1:])
     if ok:
-        kw = {k: src(v) for k, v in lft_kwargs(hd[0]).items()}
-        ps = sr.call_params()
-        ok = kw.get('length') == 'sizeof(NetlinkHeader) + len(data)' and kw.get('type') == ps[0] and kw.get('flags') == ps[1] \
-            and 'seq' in kw and kw.get('pid') == 'os.getpid()'
-    ctx.check(ok, 'L4', 'nlmsghdr: length = header size + payload and attributes, type and flags as requested', key=('L4', 'header'),
-              site=ctx.site(sr, sr.node))
-    d0 = [src(d) for d in res.local_defs(sr).get('data', []) if isinstance(d, ast.AST)]
-    adds = [src(n.value) for n in walk_no_nested(sr.node) if isinstance(n, ast.AugAssign) and src(n.target) == 'data']
-    snd = [c for c in calls_in(sr.node) if callee_name(c) == 'send']
-    ctx.check('bytearray(payload)' in d0 and adds == ['bytes(attr)'] and len(snd) == 1 and src(snd[0].args[0]) == 'bytes(header) + data', 'L4',
-              'the request is header | payload structure | attributes in that order', key=('L4', 'order'), site=ctx.site(sr, sr.node))
+        kw = tq.args(hdr)
+        blen = ('call', 'builtins.len', NONE, (('#0', strip_ids(body[0] if len(body) == 1 else ('add', body))),))
+        want_len = strip_ids(S.expr('sizeof(NetlinkHeader)'))
+        ln = strip_ids(kw.get('length', NONE))
+        ok = ln[0] == 'add' and set(ln[1]) == {want_len, blen} and kw.get('type') == ('param', ps[0]) and kw.get('flags') == ('param', ps[1]) \
+            and 'seq' in kw and tq.match(S.expr('os.getpid()'), kw.get('pid', NONE)) is not None
+    ctx.check(ok, 'L4', 'nlmsghdr: length = header size + length of everything that follows it on the wire, type and flags as requested',
+              key=('L4', 'header'), site=site, detail={'header': tq.text(hdr, 500) if hdr is not None else None})
+    ok = len(body) == 2 and tq.match(S.expr('bytearray(%s)' % ps[2]), body[0]) is not None
+    if ok:
+        it = body[1]
+        cond = ()
+        if it[0] == 'when':
+            cond, it = it[1], it[2]
+        ok = it[0] == 'sum' and tq.is_call(it[2], 'method.items') and it[2][2] == ('param', ps[3]) and tq.is_call(it[3], 'builtins.bytes') \
+            and tq.is_call(tq.args(it[3]).get('#0', NONE), 'netlink.NetlinkProtocol._attribute_factory') \
+            and all(a[0] == ('param', ps[3]) and a[1] for a in cond)
+        if ok:
+            fa = tq.args(tq.args(it[3])['#0'])
+            ok = strip_ids(fa.get('code', NONE))[0] == 'key' and strip_ids(fa.get('data', NONE))[0] == 'value'
+    ctx.check(ok, 'L4', 'the request is header | payload structure | one attribute per entry of `attributes` (type = key, data = value)',
+              key=('L4', 'order'), site=site, detail={'sent': tq.text(wire, 600) if wire is not None else None})
     af = ctx.func('netlink.NetlinkProtocol._attribute_factory')
-    t = src(af.node)
-    ok = "_fields_ = (('len', c_uint16), ('code', c_uint16), ('data', type(data)))" in t \
-        and 'return _Internal(code=code, len=sizeof(_Internal), data=data)' in t
-    ctx.check(ok, 'L4', 'attribute = nla_len (header + data), nla_type, data', key=('L4', 'attribute'), site=ctx.site(af, af.node))
+    A = ctx.sval(af)
+    r = A.ret()
+    aps = af.call_params()
+    ok = r[0] == 'call' and tq.args(r).get('code') == ('param', aps[0]) and tq.args(r).get('data') == ('param', aps[1])
+    lc = None
+    if ok:
+        ln = tq.args(r).get('len', NONE)
+        lc = tq.args(ln).get('#0') if tq.is_call(ln, 'ctypes.sizeof') else None
+        ok = lc is not None and lc[0] == 'localclass'
+    if ok:
+        fields = dict(lc[2]).get('_fields_')
+        names = [tq.text(f[1][0]) + ':' + tq.text(f[1][1]) for f in fields[1]] if fields is not None and fields[0] == 'tuple' else []
+        ok = names == ["'len':ctypes.c_uint16", "'code':ctypes.c_uint16", "'data':builtins.type(%s)" % aps[1]]
+    ctx.check(ok, 'L4', 'attribute = nla_len (size of header + data), nla_type, data - both header fields 16-bit host order',
+              key=('L4', 'attribute'), site=ctx.site(af, af.node), detail={'returned': tq.text(r, 500)})
     # alignment: every payload struct that is followed by attributes, and every attribute payload, is a multiple of 4
     for q in ('xfrm.XfrmUserSaInfo', 'xfrm.XfrmUserPolicyInfo', 'xfrm.XfrmAlgo', 'xfrm.XfrmUserTmpl'):
         ctx.check(sizes[q] % 4 == 0, 'L4', '%s is %d octets, a multiple of 4: no NLMSG_ALIGN / NLA_ALIGN padding is needed after it' % (
             q.split('.')[-1], sizes[q]), key=('L4', 'align', q))
     ctx.check(sizes['netlink.NetlinkHeader'] == 16, 'L4', 'NLMSG_HDRLEN is 16', key=('L4', 'hdrlen'))
-    # reply handling
-    g = None
-    conds = [n for n in walk_no_nested(sr.node) if isinstance(n, ast.If) and 'NLMSG_ERROR' in src(n.test)]
-    ok = len(conds) == 1 and isinstance(conds[0].body[-1], ast.Raise) and 'NetlinkError' in src(conds[0].body[-1])
+    # reply handling: the condition under which NetlinkError is raised, evaluated
+    rs = [(pc, t) for pc, t, _ in S.raises if tq.is_call(t, 'new netlink.NetlinkError')]
+    ok = len(rs) == 1
     if ok:
-        t_ = conds[0].test
-        for ty, err, want in ((2, -1, True), (2, 0, False), (2, -17, True), (3, -1, False), (16, 5, False)):
-            v = Interp(prog, sr, {'header.type': ty, 'payload.error': err, 'NLMSG_ERROR': 2}).ev(t_)
-            ok = ok and bool(v) == want
+        atoms = [a for a in rs[0][0] if not (a[0][0] == 'cmp' and tq.find_calls(a[0], 'builtins.len') and not tq.find_calls(a[0], 'netlink.NetlinkProtocol.parse_message'))]
+        msgs = {strip_ids(x) for a in atoms for x in tq.find_calls(a[0], 'netlink.NetlinkProtocol.parse_message')}
+        ok = len(msgs) == 1
+        if ok:
+            pm = msgs.pop()
+            for ty, err, want in ((2, -1, True), (2, 0, False), (2, -17, True), (3, -1, False), (16, 5, False)):
+                def leaf(t, ty=ty, err=err):
+                    t = strip_ids(t)
+                    if t == ('attr', ('index', pm, const(0)), 'type'):
+                        return ty
+                    if t == ('attr', ('index', pm, const(1)), 'error'):
+                        return err
+                    if t[0] == 'global' and t[1].endswith('NLMSG_ERROR'):
+                        return 2
+                    raise tq.NoValue()
+                try:
+                    v = all(bool(tq.teval(a[0], leaf)) == a[1] for a in atoms)
+                except (tq.NoValue, Exception):
+                    v = None
+                ok = ok and v is want
     ctx.check(ok, 'L4', 'a reply raises NetlinkError exactly when it is NLMSG_ERROR with a non-zero code; an ack (code 0) is success',
-              key=('L4', 'reply-error'), site=ctx.site(sr, sr.node))
-    adv = [src(n) for n in walk_no_nested(sr.node) if isinstance(n, ast.Assign) and src(n.targets[0]) == 'data' and 'header.length' in src(n.value)]
-    ctx.check(adv == ['data = data[header.length:]'], 'L4', 'the reply buffer is consumed message by message using nlmsg_len',
-              key=('L4', 'reply-advance'), site=ctx.site(sr, sr.node))
+              key=('L4', 'reply-error'), site=site)
+    # the reply buffer advances by nlmsg_len of the message just parsed
+    adv = [v for ups in S.loop_updates.values() for k, v in ups.items()
+           if v[0] == 'slice' and strip_ids(v[1]) == ('acc', k, 0) and v[3] == NONE and v[4] == NONE]
+    ok = len(adv) == 1 and all(strip_ids(x[2])[0] == 'attr' and strip_ids(x[2])[2] == 'length' and
+                               tq.find_calls(x[2], 'netlink.NetlinkProtocol.parse_message') for x in adv)
+    ctx.check(ok, 'L4', 'the reply buffer is consumed message by message using nlmsg_len', key=('L4', 'reply-advance'), site=site)
     ds = ctx.func('xfrm.Xfrm.delete_sa')
-    tr = [n for n in walk_no_nested(ds.node) if isinstance(n, ast.Try)]
-    ctx.check(len(tr) == 1 and any('NetlinkError' in src(h.type) for h in tr[0].handlers if h.type is not None), 'L4',
+    D = ctx.sval(ds)
+    sends = D.calls_to(qual='netlink.NetlinkProtocol.send_recv')
+    handled = [c for c in D.calls if any(a[0][0] == 'caught' and 'NetlinkError' in tq.text(a[0]) for a in c.pc)]
+    ctx.check(len(sends) == 1 and bool(handled) and not D.raises, 'L4',
               'delete_sa tolerates a kernel refusal (already gone) and reports it', key=('L4', 'delete-tolerant'), site=ctx.site(ds, ds.node))
+
+
+def subterms_of(sv):
+    from ..sval import subterms
+    seen = []
+    for env_pc, env in sv.exit_envs:
+        for v in env.values():
+            if isinstance(v, tuple):
+                seen.extend(x for x in subterms(v) if isinstance(x, tuple) and x)
+    for c in sv.calls:
+        seen.extend(x for x in subterms(c.term) if isinstance(x, tuple) and x)
+    for t, v, _, _, _ in sv.stores:
+        seen.extend(x for x in subterms(v) if isinstance(x, tuple) and x)
+    return seen
+
+
+def registry(prog, cls, name):
+    """entries of a class-level dict registry incl. `name.update({...})` statements in the class body"""
+    out = {}
+    for k in reversed(cls.mro()):
+        v = k.attrs.get(name)
+        if isinstance(v, ast.Dict):
+            out = {src(a).split('.')[-1]: src(b).split('.')[-1] for a, b in zip(v.keys, v.values)} if k is not cls else dict(
+                out, **{src(a).split('.')[-1]: src(b).split('.')[-1] for a, b in zip(v.keys, v.values)})
+        elif isinstance(v, ast.Call) and isinstance(v.func, ast.Attribute) and v.func.attr == 'copy':
+            pass
+        for st in k.node.body:
+            if isinstance(st, ast.Expr) and isinstance(st.value, ast.Call) and callee_name(st.value) == 'update' \
+                    and src(st.value.func.value) == name and st.value.args and isinstance(st.value.args[0], ast.Dict):
+                d = st.value.args[0]
+                out.update({src(a).split('.')[-1]: src(b).split('.')[-1] for a, b in zip(d.keys, d.values)})
+    return out
 
 
 def check_events(ctx, H):
     prog = ctx.prog
-    base = prog.cls('netlink.NetlinkProtocol').lookup_attr('payload_types')
-    ok = isinstance(base, ast.Dict) and {src(k): src(v) for k, v in zip(base.keys, base.values)} == {'NLMSG_ERROR': 'NetlinkErrorMsg'}
-    ctx.check(ok, 'L5', 'NLMSG_ERROR replies are decoded as nlmsgerr', key=('L5', 'error-payload'))
+    base = registry(prog, prog.cls('netlink.NetlinkProtocol'), 'payload_types')
+    ctx.check(base == {'NLMSG_ERROR': 'NetlinkErrorMsg'}, 'L5', 'NLMSG_ERROR replies are decoded as nlmsgerr', key=('L5', 'error-payload'),
+              detail={'found': base})
     x = prog.cls('xfrm.Xfrm')
-    upd = None
-    for st in x.node.body:
-        if isinstance(st, ast.Expr) and isinstance(st.value, ast.Call) and callee_name(st.value) == 'update' \
-                and src(st.value.func.value) == 'payload_types' and isinstance(st.value.args[0], ast.Dict):
-            upd = {src(k): src(v) for k, v in zip(st.value.args[0].keys, st.value.args[0].values)}
+    upd = registry(prog, x, 'payload_types')
+    upd = {k: v for k, v in upd.items() if k not in base}
     ctx.check(upd == {'XFRM_MSG_ACQUIRE': 'XfrmUserAcquire', 'XFRM_MSG_EXPIRE': 'XfrmUserExpire', 'XFRM_MSG_NEWPOLICY': 'XfrmUserPolicyInfo'},
               'L5', 'ACQUIRE is decoded as xfrm_user_acquire, EXPIRE as xfrm_user_expire, NEWPOLICY as xfrm_userpolicy_info',
               key=('L5', 'payload-types'), detail={'found': upd})
-    at = x.lookup_attr('attribute_types')
-    ctx.check(isinstance(at, ast.Dict) and {src(k): src(v) for k, v in zip(at.keys, at.values)} == {'XFRMA_TMPL': 'XfrmUserTmpl'}, 'L5',
-              'the XFRMA_TMPL attribute is decoded as xfrm_user_tmpl', key=('L5', 'attribute-types'))
+    at = registry(prog, x, 'attribute_types')
+    ctx.check(at == {'XFRMA_TMPL': 'XfrmUserTmpl'}, 'L5', 'the XFRMA_TMPL attribute is decoded as xfrm_user_tmpl', key=('L5', 'attribute-types'),
+              detail={'found': at})
     ps = ctx.func('netlink.NetlinkStructure.parse')
-    t = src(ps.node)
-    ctx.check('fit = min(len(data), sizeof(cls))' in t and 'memmove(addressof(result), data, fit)' in t and 'result = cls()' in t, 'L5',
-              'structure parsing copies min(len(data), sizeof) octets into a zeroed instance', key=('L5', 'parse'), site=ctx.site(ps, ps.node))
+    P = ctx.sval(ps)
+    r = P.ret()
+    mm = P.calls_to(callee='ctypes.memmove')
+    dp = ps.call_params()[0]
+    ok = r[0] == 'call' and r[2] == NONE and not tq.args(r) and len(mm) == 1 \
+        and tq.match(P.expr('addressof(_)'), mm[0].args.get('#0', NONE)) is not None and tq.args(mm[0].args['#0']).get('#0') == r \
+        and mm[0].args.get('#1') == ('param', dp)
+    if ok:
+        n = mm[0].args.get('#2', NONE)
+        ok = tq.match(P.expr('min(len(%s), sizeof(cls))' % dp), n) is not None or tq.match(P.expr('min(sizeof(cls), len(%s))' % dp), n) is not None
+    ctx.check(ok, 'L5', 'structure parsing copies min(len(data), sizeof) octets into a fresh (zeroed) instance and returns it',
+              key=('L5', 'parse'), site=ctx.site(ps, ps.node), detail={'returned': tq.text(r)})
     pm = ctx.func('netlink.NetlinkProtocol.parse_message')
-    t = src(pm.node)
-    ctx.check('header = NetlinkHeader.parse(data)' in t and 'cls.payload_types[header.type].parse(data[sizeof(header):])' in t
-              and 'cls._parse_attributes(data[sizeof(header) + sizeof(payload):header.length])' in t, 'L5',
-              'an event is header, then the payload structure of its type, then attributes up to nlmsg_len', key=('L5', 'parse-message'),
-              site=ctx.site(pm, pm.node))
+    M = ctx.sval(pm)
+    d = pm.call_params()[0]
+    r = M.ret()
+    hdr = M.expr('NetlinkHeader.parse(%s)' % d)
+    ok = r[0] == 'tuple' and len(r[1]) == 3 and same(r[1][0], hdr)
+    pay = att = None
+    if ok:
+        pays = [c for c in M.calls if c.name == 'parse' and tq.match(M.expr('cls.payload_types[_]'), c.recv or NONE) is not None]
+        atts = M.calls_to(qual='netlink.NetlinkProtocol._parse_attributes')
+        ok = len(pays) == 1 and len(atts) == 1
+        if ok:
+            pay, att = pays[0], atts[0]
+            hs = M.expr('sizeof(NetlinkHeader.parse(%s))' % d)
+            ok = same(pay.recv, ('index', M.expr('cls.payload_types'), ('attr', hdr, 'type'))) \
+                and same(list(pay.args.values())[0], ('slice', ('param', d), hs, NONE, NONE))
+            a = strip_ids(list(att.args.values())[0])
+            ok = ok and a[0] == 'slice' and a[1] == ('param', d) and a[3] == strip_ids(('attr', hdr, 'length')) and a[4] == NONE \
+                and a[2][0] == 'add' and set(a[2][1]) == {strip_ids(hs), strip_ids(('call', 'ctypes.sizeof', NONE, (('#0', pay.term),)))}
+            ok = ok and tq.contains(r[1][1], pay.term) and tq.contains(r[1][2], att.term)
+    ctx.check(ok, 'L5', 'an event is header, then the payload structure of its type, then attributes up to nlmsg_len', key=('L5', 'parse-message'),
+              site=ctx.site(pm, pm.node), detail={'returned': tq.text(r, 700)})
     pa = ctx.func('netlink.NetlinkProtocol._parse_attributes')
-    t = src(pa.node)
-    ctx.check("length, attr_type = unpack_from('HH', data)" in t and 'cls.attribute_types[attr_type].parse(data[4:length])' in t
-              and 'data = data[length:]' in t and 'if length == 0:' in t, 'L5',
-              'attributes are (nla_len, nla_type) in host order followed by nla_len - 4 octets of data', key=('L5', 'parse-attributes'),
-              site=ctx.site(pa, pa.node))
+    A = ctx.sval(pa)
+    r = strip_ids(A.ret())
+    ups = [c for c in A.calls if c.lib == 'struct.unpack_from']
+    ok = r[0] == 'dict' and len(r[1]) == 1 and len(ups) == 1 and ups[0].args.get('#0') == const('HH') and '#2' not in ups[0].args
+    if ok:
+        u = strip_ids(ups[0].term)
+        cur = strip_ids(ups[0].args['#1'])
+        ent = r[1][0]
+        ok = ent[0] == 'each' and ent[4][0] == 'kv' and ent[4][1] == ('index', u, const(1))
+        v = ent[4][2] if ok else None
+        ok = ok and tq.is_call(v) and v[2] == ('index', strip_ids(A.expr('cls.attribute_types')), ('index', u, const(1))) \
+            and tq.args(v).get('data') == ('slice', cur, const(4), ('index', u, const(0)), NONE)
+        adv = [strip_ids(v) for ups in A.loop_updates.values() for k, v in ups.items() if strip_ids(v)[0] == 'slice' and strip_ids(v)[1] == cur]
+        ok = ok and len(adv) == 1 and adv[0][2] == ('index', u, const(0)) and adv[0][3] == NONE
+        zero = strip_ids(A.expr('_ == 0'))
+        ok = ok and any(a[0][0] == 'cmp' and a[0][1] == '==' and const(0) in a[0][2:] and ('index', u, const(0)) in a[0][2:] and not a[1]
+                        for a in ent[3])
+    ctx.check(ok, 'L5', 'attributes are (nla_len, nla_type) in host order followed by nla_len - 4 octets of data; a zero length ends the walk',
+              key=('L5', 'parse-attributes'), site=ctx.site(pa, pa.node), detail={'returned': tq.text(r, 600)})
     # controller reads fields that exist in the mirrors
-    ctrl_reads = {'ikesacontroller.IkeSaController.process_acquire': ['xfrm_acquire.id.daddr', 'xfrm_acquire.saddr', 'xfrm_acquire.sel.family',
-                                                                      'xfrm_acquire.sel.saddr', 'xfrm_acquire.sel.daddr', 'xfrm_acquire.sel.sport',
-                                                                      'xfrm_acquire.sel.dport', 'xfrm_acquire.sel.proto', 'xfrm_acquire.policy.index'],
-                  'ikesacontroller.IkeSaController.process_expire': ['xfrm_expire.state.id.spi', 'xfrm_expire.hard']}
-    roots = {'xfrm_acquire': 'xfrm.XfrmUserAcquire', 'xfrm_expire': 'xfrm.XfrmUserExpire'}
-    for q, reads in ctrl_reads.items():
+    roots = {'ikesacontroller.IkeSaController.process_acquire': 'xfrm.XfrmUserAcquire',
+             'ikesacontroller.IkeSaController.process_expire': 'xfrm.XfrmUserExpire'}
+    nreads = 0
+    for q, mirror in roots.items():
         fi = ctx.func(q)
-        t = src(fi.node)
-        for r in reads:
-            parts = r.split('.')
-            st = py_layout(prog, prog.cls(roots[parts[0]]))
-            ok = r in t
-            for p in parts[1:]:
+        F = ctx.sval(fi)
+        root = ('param', fi.call_params()[0])
+        chains = set()
+
+        def chain_of(t):
+            parts = []
+            while t[0] == 'attr':
+                parts.append(t[2])
+                t = t[1]
+            return tuple(reversed(parts)) if t == root else None
+        for x in subterms_of(F):
+            if x[0] == 'attr':
+                ch = chain_of(x)
+                if ch:
+                    chains.add(ch)
+        maximal = [c for c in chains if not any(o != c and o[:len(c)] == c for o in chains)]
+        for ch in sorted(maximal):
+            st = py_layout(prog, prog.cls(mirror))
+            ok = True
+            used = []
+            for p in ch:
                 f = next((f for f in st.fields if f.name == p), None) if st is not None else None
-                ok = ok and f is not None
-                st = f.struct if f is not None else None
-            ctx.check(ok, 'L5', '%s reads %s, a field of the decoded structure' % (fi.name, r), key=('L5', 'controller-read', r),
-                      site=ctx.site(fi, fi.node))
+                if f is None:
+                    # the first step that is not a field may be a method / property of the mirror class (to_ipaddr, ...)
+                    ok = st is None or bool(used) and any(p in k.methods for k in prog.classes.values() if k.name.startswith('Xfrm'))
+                    break
+                used.append(p)
+                st = f.struct
+            nreads += 1
+            ctx.check(ok and bool(used), 'L5', '%s reads %s.%s, a field of the decoded structure' % (fi.name, root[1], '.'.join(ch)),
+                      key=('L5', 'controller-read', '.'.join(used) or '.'.join(ch)), site=ctx.site(fi, fi.node))
+    ctx.floor('L5 field paths read by the controller', nreads, 8, rule='L5')
     ml = ctx.func('ikesacontroller.IkeSaController.main_loop')
-    t = src(ml.node)
-    ctx.check('if header.type == xfrm.XFRM_MSG_ACQUIRE:' in t and 'elif header.type == xfrm.XFRM_MSG_EXPIRE:' in t
-              and 'self.process_acquire(msg, attributes)' in t and 'self.process_expire(msg)' in t, 'L5',
-              'kernel events are dispatched on the netlink message type', key=('L5', 'dispatch'), site=ctx.site(ml, ml.node))
+    L = ctx.sval(ml)
+    ok = True
+    for q, const_name, argn in (('ikesacontroller.IkeSaController.process_acquire', 'XFRM_MSG_ACQUIRE', 2),
+                                ('ikesacontroller.IkeSaController.process_expire', 'XFRM_MSG_EXPIRE', 1)):
+        cs = L.calls_to(qual=q)
+        ok1 = len(cs) == 1
+        if ok1:
+            c = cs[0]
+            msgs = tq.find_calls(list(c.args.values())[0], 'netlink.NetlinkProtocol.parse_message')
+            ok1 = len(msgs) >= 1 and list(c.args.values())[0] == ('index', msgs[0], const(1)) and \
+                (argn == 1 or list(c.args.values())[1] == ('index', msgs[0], const(2)))
+            want = L.mk_cmp('==', ('attr', ('index', msgs[0], const(0)), 'type'), L.expr('xfrm.' + const_name)) if ok1 else None
+            ok1 = ok1 and any(a == (want, True) for a in c.pc)
+        ok = ok and ok1
+    ctx.check(ok, 'L5', 'kernel events are dispatched on the netlink message type: ACQUIRE -> process_acquire(payload, attributes), '
+              'EXPIRE -> process_expire(payload)', key=('L5', 'dispatch'), site=ctx.site(ml, ml.node))
 
 
 MANIFEST = {
@@ -387,6 +599,6 @@ MANIFEST = {
              'from the computed sizes; reply error/ack semantics evaluated; event registries and the fields the controller reads.',
     'note': 'Trusted: LP64 natural alignment as the target ABI, the header reader for the C subset these headers use. Declined: what '
             'the running kernel does; decoding real socket bytes.',
-    'technique': 'layout computation of ctypes mirrors vs parsed C declarations + constant tables + keyword orientation checks',
+    'technique': 'layout computation of ctypes mirrors vs parsed C declarations + constant tables + orientation of request fields over value terms',
     'design_ref': 'DESIGN.md 3/C14',
 }
